@@ -161,6 +161,10 @@ Definition gen_def_and_step (cfg : config) (prev_defs : list rstmt) (prev : rexp
 
 Record acc := mkAcc { a_defs : list rstmt; a_stk : list (rexpr * option pos) }.   (* head = top of stack *)
 
+(* the closure spliced into a wrapper: `|__v| inner`, `move |__v| inner` in the async spawn variants *)
+Definition wrapper_closure (cfg : config) (inner : rexpr) : rexpr :=
+  if is_async cfg && is_spawn cfg then RClosureMove n_v inner else RClosure n_v inner.
+
 (* wrap_last_step_stream (899-945) with action_expr_pos = None *)
 Definition wrap_last (cfg : config) (a : acc) : res acc :=
   match a_stk a with
@@ -170,7 +174,7 @@ Definition wrap_last (cfg : config) (a : acc) : res acc :=
       | [] => InternalBug 2
       | (cur, None) :: _ => InternalBug 3
       | (cur, Some w) :: rest' =>
-          match replace_inner (p_comb w) [RClosure n_v prev] with
+          match replace_inner (p_comb w) [wrapper_closure cfg prev] with
           | None => InternalBug 4
           | Some args =>
               do ds <- gen_def_and_step cfg (a_defs a) cur (set_args w args);
